@@ -68,9 +68,10 @@ def Tree.size : Tree → Nat
 def Tree.isNil : Tree → Bool | .nil => true | _ => false
 def Tree.isTyped : Tree → Bool | .typed .. => true | _ => false
 def Tree.isPre : Tree → Bool | .pre .. => true | _ => false
-/-- KeySpecifier of a lookup (3.1 [54]): NCName | IntegerLiteral | ParenthesizedExpr -/
+/-- KeySpecifier of a lookup (3.1 [54]): NCName | IntegerLiteral | ParenthesizedExpr
+(operand kinds 0 and 7 are NCNames — 7: a name that spells an operator keyword —, 1 integers) -/
 def Tree.isKeySpec : Tree → Bool
-  | .atom k _ => k == 0 || k == 1
+  | .atom k _ => k == 0 || k == 1 || k == 7
   | .group .. => true
   | _ => false
 
